@@ -310,6 +310,13 @@ def check(ctx, f, analysis, label, base, mode, opt):
             out = outb
             inj_event, inj_glob, where = ("hit", ("INJ", 7), {}), ("builtins", "eval"), ("first" if opt["run_first"] else "last")
             p = None
+        elif opt.get("via_file"):
+            # the usual way to rewrite a checkpoint: parse it from its file, inject, save over the same path
+            vf_path = os.path.join(ctx.scratch, "c08_inplace.pkl")
+            with open(vf_path, "wb") as fh:
+                fh.write(base)
+            with open(vf_path, "rb") as fh:
+                p = f.Pickled.load(fh)
         else:
             p = f.Pickled.load(base)
         if p is None:
@@ -324,7 +331,23 @@ def check(ctx, f, analysis, label, base, mode, opt):
                 agg.count("refused_first_attempts")
         if p is not None:
             inj_event, inj_glob, where = inject(f, p, mode, opt)
-            out = p.dumps()
+            if opt.get("via_file"):
+                ref = p.dumps()
+                try:
+                    with open(vf_path, "wb") as fh:
+                        p.dump(fh)
+                    with open(vf_path, "rb") as fh:
+                        out = fh.read()
+                except Exception as e:
+                    out = b"EXC:" + type(e).__name__.encode()
+                os.remove(vf_path)
+                if out != ref:
+                    agg.violation(f"saved-in-place-differs:{mode}",
+                                  f"the pickle saved over its own source file ({out[:40]!r}..., {len(out)} bytes) is not what dumps() "
+                                  f"gave just before ({len(ref)} bytes)", w)
+                    return
+            else:
+                out = p.dumps()
     except Exception as e:
         agg.hist("injection_refused", f"{mode}:{type(e).__name__}")
         return
@@ -510,6 +533,16 @@ def run_shard(ctx):
     for bi, (label, base) in enumerate(blist[:12] + blist[-6:]):
         if bi % ctx.nshards == ctx.shard and len(base) < 3000:
             benign_callee_verdicts(ctx, f, analysis, label, base)
+    # rewrite in place: bases with a large constant, parsed from their file and saved over it
+    for label, base in blist:
+        if len(base) < 60000:
+            continue
+        for mode, opt in MODES:
+            if mode in ("insert_python", "append_python", "insert_fn"):
+                i += 1
+                if i % ctx.nshards == ctx.shard:
+                    check(ctx, f, analysis, label, base, mode, dict(opt, via_file=True))
+                    ctx.agg.count("in_place_rewrites")
     # histories: refused helper call -> valid injection, on the same parsed object
     rng = asm.rng_for(ctx.seed, "c08refused")
     nref = {"quick": 40, "thorough": 600}[ctx.tier]
